@@ -463,8 +463,15 @@ fn oracle(g: &Graph, md: &str, html: &[u8], literal_clause: bool) -> Vec<(&'stat
     for n in 0..(if literal_clause { 4 } else { 0 }) {
         let pat = format!("[^zz{}]", n);
         let (a, b) = (count_sub(md.as_bytes(), pat.as_bytes()), count_sub(html, pat.as_bytes()));
-        if a != b {
-            out.push(("html-unresolved-literal", format!("{} occurs {} times in the source but {} times in the output", pat, a, b)));
+        // an occurrence directly followed by `[` or `(` may be the text of an ordinary (reference) link - e.g.
+        // `[^zz0][^1]` when `[^1]: url` is read as a link reference definition - and then is not literal text
+        let maybe_link_text = md
+            .as_bytes()
+            .windows(pat.len() + 1)
+            .filter(|w| w.starts_with(pat.as_bytes()) && (w[pat.len()] == b'[' || w[pat.len()] == b'('))
+            .count();
+        if b > a || b + maybe_link_text < a {
+            out.push(("html-unresolved-literal", format!("{} occurs {} times in the source ({} of them directly before a bracket) but {} times in the output", pat, a, maybe_link_text, b)));
             break;
         }
     }
